@@ -90,6 +90,7 @@ RULE = (
     'get_value_c / get_value_c(aggregation) / get_value_and_derivatives / a new BIOGEME object; placement: random formulas of depth <= 5 with trajectory and Monte-Carlo operators, '
     'single formula / dict / Expression.audit / get_value_c; non-trivial = >= 2 individuals with unequal block sizes; '
     'round 3: id pools around zero (-2..4, 0..5) and corpus tables with id 0 smallest / not first / interleaved; latent-class formulas (w in {1/8,1/4,1/2,3/4}, with / without draws, R in {1,2,3}) x reordered table; '
+    'edit histories also contain the shapes move_boundary (last / first observation of an individual re-assigned to the adjacent one) and resize_blocks (table replaced by a sorted extract with the same ids and length, other block sizes): ids, order and length kept, only block boundaries move; '
     'bootstrap: 2-4 samples, numpy seed, resample size in {default, 1, 7}; same-object sequences of 1-3 edits (none, reorder, append for the last / a new individual, drop a row / an individual, relabel) each followed by '
     'likelihood / derivatives / simulate on the existing object (isolated process)'
 )
@@ -1106,11 +1107,55 @@ def gen_edit_case(rng, allow_stale_draws):
     case = {'first': [list(r) for r in cur], 'index': list(t['index']), 'allint': allint, 'formula': formula, 'b': rng.randint(-8, 8) / 16.0, 'q': rng.choice([0.0, 0.25, 0.5]),
             'K': rng.choice([1, 2]), 'R': rng.choice([1, 2, 3]), 'entry0': rng.choice(EXPR_ENTRIES + ('biogeme',)), 'steps': [], 'isolated': False}
     n_map = n_individuals(cur)  # number of individuals when the map of the database was last built
+    res_tag = case.setdefault('shapes', [])
     for _ in range(rng.choice([1, 1, 2, 3])):
         edits = []
         for _ in range(rng.choice([1, 1, 2])):
             ids_now = sorted({r[0] for r in cur})
-            op = rng.choice(['append_last', 'append_any', 'append_new', 'drop', 'drop_individual', 'relabel', 'order', 'remove', 'replace'])
+            op = rng.choice(['append_last', 'append_any', 'append_new', 'drop', 'drop_individual', 'relabel', 'order', 'remove', 'replace',
+                             'move_boundary', 'move_boundary', 'resize_blocks', 'resize_blocks'])
+            if op == 'move_boundary':
+                # same individuals, same order, same number of rows, table still sorted: only a block BOUNDARY moves
+                # (the last observation of an individual goes to the next one, or the first to the previous one)
+                srt = sorted(cur, key=lambda r: r[0])
+                cand = []
+                for a, b2 in zip(ids_now, ids_now[1:]):
+                    ra, rb = [r for r in srt if r[0] == a], [r for r in srt if r[0] == b2]
+                    if len(ra) >= 2:
+                        cand.append((ra[-1][3], b2))
+                    if len(rb) >= 2:
+                        cand.append((rb[0][3], a))
+                if not cand:
+                    continue
+                key, idv = rng.choice(cand)
+                e = {'op': 'relabel', 'key': key, 'id': idv}
+                edits.append(e)
+                cur = apply_edits(cur, [e])
+                res_tag.append('move_boundary')
+                continue
+            if op == 'resize_blocks':
+                # the table replaced by another sorted extract: same ids, same total number of rows, other block sizes
+                n_tot, k_ind = len(cur), len(ids_now)
+                old = [sum(1 for r in cur if r[0] == a) for a in ids_now]
+                sizes = None
+                for _ in range(20):
+                    cuts = sorted(rng.sample(range(1, n_tot), k_ind - 1)) if k_ind >= 2 and n_tot > k_ind else None
+                    if cuts is None:
+                        break
+                    sz = [b2 - a for a, b2 in zip([0] + cuts, cuts + [n_tot])]
+                    if sz != old:
+                        sizes = sz
+                        break
+                if sizes is None:
+                    continue
+                rows = []
+                for a, k in zip(ids_now, sizes):
+                    rows += new_rows(a, k)
+                e = {'op': 'replace', 'rows': rows}
+                edits.append(e)
+                cur = apply_edits(cur, [e])
+                res_tag.append('resize_blocks')
+                continue
             if op == 'append_last':      # new wave for the last individual: the table stays sorted
                 e = {'op': 'append', 'rows': new_rows(cur[-1][0], rng.choice([1, 2]))}
             elif op == 'append_any':     # new rows for any individual: its rows are no longer consecutive in the table
@@ -1363,6 +1408,8 @@ def check_edit_case(ctx, res, case):
         recs = iter_edit_case(case)
     res.count({'edit': desc0}, nontrivial=True)
     res.tally('edit-sequence' + (':isolated' if case.get('isolated') else ''))
+    for sh in case.get('shapes', []):
+        res.tally(f'edit-shape:{sh} (ids, order, length kept; block boundaries moved)')
     cur = [list(r) for r in case['first']]
     steps = [{'edits': [], 'entry': case['entry0']}] + case['steps']
     tables = []
@@ -1925,6 +1972,20 @@ def _edit_corpus():
             {'edits': [{'op': 'append', 'rows': [[12, 0.5, 1.0, 6.0], [3, 0.75, 0.5, 7.0]]}], 'entry': 'expr'},
             {'edits': [{'op': 'append', 'rows': [[5, 0.5, 1.0, 8.0]]}, {'op': 'order', 'keys': [8.0, 7.0, 6.0, 5.0, 4.0, 3.0, 2.0, 1.0, 0.0]}], 'entry': 'biogeme'},
             {'edits': [{'op': 'remove', 'x_gt': 1.25}], 'entry': 'expr_deriv'}]),
+        # (A) only block boundaries move: the last observation of 7 goes to 12, then the first of 7 goes to 3 (ids, order, length unchanged)
+        dict(common, formula='traj', entry0='expr', steps=[
+            {'edits': [{'op': 'relabel', 'key': 2.0, 'id': 12}], 'entry': 'expr'},
+            {'edits': [{'op': 'relabel', 'key': 0.0, 'id': 3}], 'entry': 'expr_deriv'},
+            {'edits': [{'op': 'relabel', 'key': 2.0, 'id': 7}], 'entry': 'expr_sum'},
+            {'edits': [{'op': 'relabel', 'key': 4.0, 'id': 7}], 'entry': 'biogeme'}]),
+        # (B) the table replaced by another sorted extract with the same ids and the same number of rows, other block sizes
+        dict(common, formula='traj', entry0='expr_sum', steps=[
+            {'edits': [{'op': 'replace', 'rows': [[3, 0.5, 1.0, 6.0], [3, 0.25, 0.5, 7.0], [3, 0.75, -1.0, 8.0], [7, 0.5, 2.0, 9.0], [12, 0.125, 0.5, 10.0], [12, 0.9, 1.5, 11.0]]}], 'entry': 'expr'},
+            {'edits': [{'op': 'replace', 'rows': [[3, 0.5, 1.0, 12.0], [7, 0.25, 0.5, 13.0], [7, 0.75, -1.0, 14.0], [7, 0.5, 2.0, 15.0], [7, 0.125, 0.5, 16.0], [12, 0.9, 1.5, 17.0]]}], 'entry': 'expr_deriv'},
+            {'edits': [{'op': 'replace', 'rows': [[3, 0.5, 1.0, 18.0], [3, 0.25, 0.5, 19.0], [7, 0.75, -1.0, 20.0], [7, 0.5, 2.0, 21.0], [12, 0.125, 0.5, 22.0], [12, 0.9, 1.5, 23.0]]}], 'entry': 'expr_sum'}]),
+        dict(common, formula='mc', entry0='expr', steps=[
+            {'edits': [{'op': 'relabel', 'key': 2.0, 'id': 12}], 'entry': 'expr'},
+            {'edits': [{'op': 'relabel', 'key': 0.0, 'id': 3}], 'entry': 'expr_sum'}]),
         # known finding F-C09-3: a new individual, then the expression entry point with Monte-Carlo
         dict(common, formula='mc', entry0='expr', isolated=True, steps=[{'edits': [{'op': 'append', 'rows': [[5, 0.5, 1.0, 6.0]]}], 'entry': 'expr'}]),
     ]
